@@ -4,13 +4,13 @@
      200..299 linear scale (C12-C14)   300..339 layer placement (C01-C03)
      340..379 distributor (C04)   380..399 engine histories (C06)
      400..499 VPSC solver (C05)   500..599 rendering (C07-C09)
-     600..699 process-level plumbing (C10)   700..799 axis pipeline / totality (C11, C07_affine)
+     600..699 process-level plumbing (C10)   700..799 axis pipeline / totality (C11, C07_affine); 720..729 option dictionaries (C11)
      800..849 timeline items -> engine -> scene labels (C08 end-to-end)
      850..899 raw timeline input -> both documents (C07/C09 end-to-end) *)
 From Coq Require Import ZArith List.
 From Labella Require Import Extract.Codec Extract.ApiText Extract.ApiTex Extract.ApiTime
   Extract.ApiScale Extract.ApiLayout Extract.ApiDist Extract.ApiForce Extract.ApiVpsc
-  Extract.ApiRender Extract.ApiProc Extract.ApiAxis Extract.ApiCompose Extract.ApiPipeline.
+  Extract.ApiRender Extract.ApiProc Extract.ApiAxis Extract.ApiOptions Extract.ApiCompose Extract.ApiPipeline.
 Open Scope Z_scope.
 
 Definition api (cmd : Z) (a : list Z) : list Z :=
@@ -24,6 +24,8 @@ Definition api (cmd : Z) (a : list Z) : list Z :=
   else if cmd <? 500 then api_vpsc cmd a
   else if cmd <? 600 then api_render cmd a
   else if cmd <? 700 then api_proc cmd a
+  else if cmd <? 720 then api_axis cmd a
+  else if cmd <? 730 then api_options cmd a
   else if cmd <? 800 then api_axis cmd a
   else if cmd <? 850 then api_compose cmd a
   else api_pipeline cmd a.
